@@ -149,6 +149,9 @@ class ReducerImpl:
         if a == "clear":
             r.clear(keepshape=bool(o["keep"]))
             return {"t": "ok"}
+        if a == "setdt":
+            r.dt = o["x"] * self.P.tick
+            return {"t": "ok"}
         if a == "peek":
             x = r.peek()
             y = r.latest
